@@ -35,8 +35,8 @@ type splice struct {
 }
 
 type stats struct {
-	Files, Funcs, Loops, MapRanges, Stores, MapStores, Globals, SkippedStores int
-	Skipped                                                                   []string
+	Files, Funcs, Loops, MapRanges, Stores, MapStores, Globals, GlobalVars, SkippedStores int
+	Skipped                                                                               []string
 }
 
 const hookPath = "github.com/vektah/gqlparser/v2/verifhook"
@@ -135,13 +135,42 @@ func instrumentFile(p *packages.Package, f *ast.File, src []byte, stores bool, s
 		if fd, ok := d.(*ast.FuncDecl); ok && fd.Body != nil {
 			hasBody = true
 		}
+		if gd, ok := d.(*ast.GenDecl); ok && gd.Tok == token.VAR {
+			hasBody = true // package-level variables are registered
+		}
 	}
 	if !hasBody {
 		return nil, false
 	}
 	// import right after the package clause, same line
 	in.insert(in.off(f.Name.End()), `; import verifhook "`+hookPath+`"; import verifhookunsafe "unsafe"`)
-	in.insert(len(src), "\nvar _ verifhookunsafe.Pointer\nvar _ = verifhook.Tick\n")
+	tail := "\nvar _ verifhookunsafe.Pointer\nvar _ = verifhook.Tick\n"
+	// register every package-level variable of the file, so that the harness can compute
+	// the memory reachable from package-level state
+	var regs []string
+	for _, d := range f.Decls {
+		gd, ok := d.(*ast.GenDecl)
+		if !ok || gd.Tok != token.VAR {
+			continue
+		}
+		for _, sp := range gd.Specs {
+			vs, ok := sp.(*ast.ValueSpec)
+			if !ok {
+				continue
+			}
+			for _, n := range vs.Names {
+				if n.Name == "_" {
+					continue
+				}
+				regs = append(regs, fmt.Sprintf("verifhook.RegisterGlobal(%q, &%s)", p.Name+"."+n.Name, n.Name))
+				st.GlobalVars++
+			}
+		}
+	}
+	if len(regs) > 0 {
+		tail += "func init() { " + strings.Join(regs, "; ") + " }\n"
+	}
+	in.insert(len(src), tail)
 	for _, d := range f.Decls {
 		fd, ok := d.(*ast.FuncDecl)
 		if !ok || fd.Body == nil {
